@@ -3,6 +3,7 @@ package main
 import (
 	"fmt"
 	"go/types"
+	"sort"
 	"strings"
 
 	"golang.org/x/tools/go/ssa"
@@ -135,13 +136,13 @@ func c07r2(c *Ctx, id string) {
 	fn := oi.persist
 	c.need(fn != nil, id, "the persistence test: a (uint64) bool observer method polled in a loop under the gate (checkPersistSeqNo)")
 	recv, p := fn.Params[0].Name(), fn.Params[1].Name()
-	h := &Harness{Fn: fn, Groups: []Group{{Atoms: []string{p, recv + ".persistSeqNo"}, Unsigned: true}}, Bools: []string{recv + ".closed"}}
+	h := &Harness{Fn: fn, Groups: []Group{{Atoms: []string{p, recv + "." + oi.fPersist}, Unsigned: true}}, Bools: []string{recv + "." + oi.fClosed}}
 	c.oae(id, fname(fn), fn.Pos(), h, func(st *State, out *Outcome) string {
 		if out.Panicked {
 			return "panics"
 		}
 		b, ok := out.Ret[0].(avBool)
-		want := st.Le(p, recv+".persistSeqNo") || st.B(recv+".closed")
+		want := st.Le(p, recv+"."+oi.fPersist) || st.B(recv+"."+oi.fClosed)
 		if !ok || b.b != want {
 			return fmt.Sprintf("returns %s, expected %v", avString(out.Ret[0]), want)
 		}
@@ -155,7 +156,7 @@ func c07r3(c *Ctx, id string) {
 	fn := w.Method("couchbase", oi.typ.Obj().Name(), "SetPersistSeqNo")
 	c.need(fn != nil, id, "observer.SetPersistSeqNo")
 	recv, p := fn.Params[0].Name(), fn.Params[1].Name()
-	old := recv + ".persistSeqNo"
+	old := recv + "." + oi.fPersist
 	h := &Harness{Fn: fn, Groups: []Group{{Atoms: []string{p, old, "#0"}, Unsigned: true}}, Quiet: quietLog}
 	c.oae(id, fname(fn), fn.Pos(), h, func(st *State, out *Outcome) string {
 		if out.Panicked {
@@ -179,7 +180,7 @@ func c07r3(c *Ctx, id string) {
 		}
 		return ""
 	}, "threshold' = (new ≠ 0 ∧ new > old) ? new : old")
-	f := w.Field("couchbase", oi.typ.Obj().Name(), "persistSeqNo")
+	f := w.Field("couchbase", oi.typ.Obj().Name(), oi.fPersist)
 	c.need(f != nil, id, "observer.persistSeqNo")
 	for _, fs := range w.fieldStores(f) {
 		if _, isAlloc := fs.Store.Addr.(*ssa.FieldAddr).X.(*ssa.Alloc); isAlloc {
@@ -193,8 +194,8 @@ func c07r4(c *Ctx, id string) {
 	w := c.W
 	fn := w.Method("couchbase", "rollbackMitigation", "getMinSeqNo")
 	c.need(fn != nil, id, "couchbase.rollbackMitigation.getMinSeqNo")
-	rt := w.NamedType("couchbase", "vbUUIDAndSeqNo")
-	c.need(rt != nil, id, "couchbase.vbUUIDAndSeqNo")
+	rt := replicaStateType(w)
+	c.need(rt != nil, id, "the per-copy report record: the one struct type of package couchbase, other than the stream observer, with a gocbcore.VbUUID and a gocbcore.SeqNo field (vbUUIDAndSeqNo)")
 	maxN := 4
 	if c.Tier == "thorough" {
 		maxN = 5
@@ -284,12 +285,54 @@ func c07r5(c *Ctx, id string) {
 		}
 	}
 	c.need(errP != nil, id, "error parameter of the observe callback")
+	rsName := "vbUUIDAndSeqNo"
+	if rt := replicaStateType(w); rt != nil {
+		rsName = rt.Obj().Name()
+	}
+	// the mitigation's own closed switch: the flag its Stop raises
+	rmClosed := flagSetBy(w, w.Method("couchbase", "rollbackMitigation", "Stop"))
+	if rmClosed == "" {
+		rmClosed = "closed"
+	}
+	// the report may be applied in the callback itself or in a helper the callback calls: a condition then holds
+	// for an instruction if it guards the instruction in its own function or guards the helper's call in the callback
+	site := map[*ssa.Function]ssa.CallInstruction{}
+	units := []*ssa.Function{cb}
+	for f := range w.syncCallees(cb, 1, false) {
+		if f == cb || f.Pkg != obs.Pkg {
+			continue
+		}
+		if cs := callsIn(cb, f); len(cs) == 1 {
+			site[f] = cs[0]
+			units = append(units, f)
+		}
+	}
+	sort.Slice(units, func(i, j int) bool { return fname(units[i]) < fname(units[j]) })
+	blocksOf := func(in ssa.Instruction) []*ssa.BasicBlock {
+		bs := []*ssa.BasicBlock{in.Block()}
+		if s := site[in.Parent()]; s != nil {
+			bs = append(bs, s.Block())
+		}
+		return bs
+	}
+	subst := func(in ssa.Instruction, o string) string {
+		s := site[in.Parent()]
+		if s == nil {
+			return o
+		}
+		for _, p := range in.Parent().Params {
+			o = strings.ReplaceAll(o, "param("+p.Name()+")", "\x00"+w.Origin(argOfParam(s.Common(), in.Parent(), p))+"\x00")
+		}
+		return strings.ReplaceAll(o, "\x00", "")
+	}
 	check := func(in ssa.Instruction, what string) {
-		b := in.Block()
-		gClosed := guardedBy(b, false, func(v ssa.Value) bool { return w.Origin(v) == "recv.closed" })
-		gGen := guardedBy(b, false, func(v ssa.Value) bool { return w.Origin(v) == "(recv.activeGroupID != param(groupID))" }) ||
-			guardedBy(b, true, func(v ssa.Value) bool { return w.Origin(v) == "(recv.activeGroupID == param(groupID))" })
-		gErr := errGuard(b, true, func(v ssa.Value) bool { return v == ssa.Value(errP) })
+		gClosed, gGen, gErr := false, false, false
+		for _, b := range blocksOf(in) {
+			gClosed = gClosed || guardedBy(b, false, func(v ssa.Value) bool { f, _ := flagRead(v); return f != nil && f.Name() == rmClosed })
+			gGen = gGen || guardedBy(b, false, func(v ssa.Value) bool { return w.Origin(v) == "(recv.activeGroupID != param(groupID))" }) ||
+				guardedBy(b, true, func(v ssa.Value) bool { return w.Origin(v) == "(recv.activeGroupID == param(groupID))" })
+			gErr = gErr || errGuard(b, true, func(v ssa.Value) bool { return v == ssa.Value(errP) })
+		}
 		c.CallSites++
 		if gClosed && gGen && gErr {
 			c.OK(id, what+"@"+fname(cb), in.Pos(), "dominated by ¬closed ∧ generation unchanged ∧ err==nil")
@@ -299,26 +342,30 @@ func c07r5(c *Ctx, id string) {
 	}
 	n := 0
 	var dispatch *ssa.Call
-	allInstrs(cb, func(in ssa.Instruction) {
-		cc := callOf(in)
-		if cc == nil {
-			return
-		}
-		switch {
-		case isStaticCall(cc, "/couchbase", "vbUUIDAndSeqNo", "SetSeqNo"):
-			n++
-			check(in, "SetSeqNo")
-			c.Check(w.Origin(cc.Args[1]) == "param(result).PersistSeqNo", id, "SetSeqNo-arg@"+fname(cb), in.Pos(), "seqNo ← result.PersistSeqNo", "SetSeqNo("+w.Origin(cc.Args[1])+")")
-		case isStaticCall(cc, "/couchbase", "vbUUIDAndSeqNo", "SetVbUUID"):
-			n++
-			check(in, "SetVbUUID")
-			c.Check(w.Origin(cc.Args[1]) == "param(result).VbUUID", id, "SetVbUUID-arg@"+fname(cb), in.Pos(), "vbUUID ← result.VbUUID", "SetVbUUID("+w.Origin(cc.Args[1])+")")
-		case !cc.IsInvoke() && strings.HasSuffix(w.Origin(cc.Value), ".persistSeqNoDispatcher"):
-			n++
-			check(in, "dispatch")
-			dispatch, _ = in.(*ssa.Call)
-		}
-	})
+	for _, u := range units {
+		allInstrs(u, func(in ssa.Instruction) {
+			cc := callOf(in)
+			if cc == nil {
+				return
+			}
+			switch {
+			case isStaticCall(cc, "/couchbase", rsName, "SetSeqNo"):
+				n++
+				check(in, "SetSeqNo")
+				o := subst(in, w.Origin(cc.Args[1]))
+				c.Check(o == "param(result).PersistSeqNo", id, "SetSeqNo-arg@"+fname(cb), in.Pos(), "seqNo ← result.PersistSeqNo", "SetSeqNo("+o+")")
+			case isStaticCall(cc, "/couchbase", rsName, "SetVbUUID"):
+				n++
+				check(in, "SetVbUUID")
+				o := subst(in, w.Origin(cc.Args[1]))
+				c.Check(o == "param(result).VbUUID", id, "SetVbUUID-arg@"+fname(cb), in.Pos(), "vbUUID ← result.VbUUID", "SetVbUUID("+o+")")
+			case !cc.IsInvoke() && strings.HasSuffix(w.Origin(cc.Value), ".persistSeqNoDispatcher"):
+				n++
+				check(in, "dispatch")
+				dispatch, _ = in.(*ssa.Call)
+			}
+		})
+	}
 	if n < 3 || dispatch == nil {
 		c.Undecided(id, "callback-shape", cb.Pos(), "expected SetSeqNo, SetVbUUID and the dispatch in the observe callback (found %d)", n)
 	} else {
@@ -328,7 +375,7 @@ func c07r5(c *Ctx, id string) {
 			c.Fail(id, "dispatch-arg", dispatch.Pos(), "dispatched value is not a PersistSeqNo literal")
 		} else {
 			tab, _ := allocTable(a)
-			vb, sq := w.Origin(tab["VbID"]), w.Origin(tab["SeqNo"])
+			vb, sq := subst(dispatch, w.Origin(tab["VbID"])), subst(dispatch, w.Origin(tab["SeqNo"]))
 			ok := vb == "param(vbID)" && sq == "call((*couchbase.rollbackMitigation).getMinSeqNo)(recv, param(vbID))"
 			c.Check(ok, id, "dispatch-arg", dispatch.Pos(), "dispatches (VbID ← "+vb+", SeqNo ← "+sq+")", "dispatches (VbID ← "+vb+", SeqNo ← "+sq+"), expected (vbID, getMinSeqNo(vbID))")
 			// getMinSeqNo is evaluated after the replica table was updated
@@ -337,9 +384,9 @@ func c07r5(c *Ctx, id string) {
 				gm = call
 			}
 			okOrder := gm != nil
-			allInstrs(cb, func(in ssa.Instruction) {
+			allInstrs(dispatch.Parent(), func(in ssa.Instruction) {
 				cc := callOf(in)
-				if cc != nil && (isStaticCall(cc, "/couchbase", "vbUUIDAndSeqNo", "SetSeqNo") || isStaticCall(cc, "/couchbase", "vbUUIDAndSeqNo", "SetVbUUID")) {
+				if cc != nil && (isStaticCall(cc, "/couchbase", rsName, "SetSeqNo") || isStaticCall(cc, "/couchbase", rsName, "SetVbUUID")) {
 					if gm == nil || !dominatesInstr(in, gm) {
 						okOrder = false
 					}
@@ -349,7 +396,7 @@ func c07r5(c *Ctx, id string) {
 		}
 	}
 	// IsOutdated
-	io := w.Method("couchbase", "vbUUIDAndSeqNo", "IsOutdated")
+	io := w.Method("couchbase", rsName, "IsOutdated")
 	c.need(io != nil, id, "vbUUIDAndSeqNo.IsOutdated")
 	rv, lp := io.Params[0].Name(), io.Params[1].Name()
 	h := &Harness{Fn: io, Bools: []string{rv + ".absent"},
@@ -398,11 +445,11 @@ func c07r6(c *Ctx, id string) {
 	c03DeliverOAE(c, id, oi)
 	cl := w.Method("couchbase", oi.typ.Obj().Name(), "Close")
 	c.need(cl != nil, id, "observer.Close")
-	f := w.Field("couchbase", oi.typ.Obj().Name(), "closed")
+	f := w.Field("couchbase", oi.typ.Obj().Name(), oi.fClosed)
 	c.need(f != nil, id, "observer.closed")
 	ok := false
 	allInstrs(cl, func(in ssa.Instruction) {
-		if st, isSt := in.(*ssa.Store); isSt && fieldOfAddr(st.Addr) == f && w.Origin(st.Val) == "const(true)" && len(guardsOf(in.Block())) == 0 {
+		if fl, _, val := flagWrite(in); fl == f && w.Origin(val) == "const(true)" && len(guardsOf(in.Block())) == 0 {
 			ok = true
 		}
 	})
@@ -455,7 +502,7 @@ func gateOAE(c *Ctx, id string, oi *obsInfo, aspect string) {
 			}
 		}
 	}
-	closedAtom := recv + ".closed"
+	closedAtom := recv + "." + oi.fClosed
 	h := &Harness{Fn: gate, Bools: append([]string{dis, ctlP, "need"}, extra...), Groups: []Group{{Atoms: []string{seqP}, Unsigned: true}},
 		NoInline: noinl, Quiet: []string{"time.Sleep"},
 		Valid: func(st *State) bool {
@@ -553,20 +600,29 @@ func gateArgsRule(c *Ctx, id string, oi *obsInfo) {
 func c07r7(c *Ctx, id string) {
 	w := c.W
 	fn := w.Method("couchbase", "rollbackMitigation", "isConfigSnapshotNewerThan")
-	get := w.Method("couchbase", "rollbackMitigation", "getRevEpochAndID")
-	c.need(fn != nil && get != nil, id, "rollbackMitigation.isConfigSnapshotNewerThan / getRevEpochAndID")
+	c.need(fn != nil, id, "rollbackMitigation.isConfigSnapshotNewerThan")
+	// the revision reader: the module function (method or not) the comparison calls that yields two integers
+	var get *ssa.Function
+	allInstrs(fn, func(in ssa.Instruction) {
+		if cc := callOf(in); cc != nil {
+			if f := cc.StaticCallee(); f != nil && w.inModule(f) && f.Signature.Results().Len() == 2 {
+				get = f
+			}
+		}
+	})
+	c.need(get != nil, id, "the (epoch, revision) reader called by isConfigSnapshotNewerThan (getRevEpochAndID)")
 	recv, np := fn.Params[0].Name(), fn.Params[1].Name()
 	h := &Harness{Fn: fn, NoInline: map[string]bool{fname(get): true},
 		Groups: []Group{{Atoms: []string{"oldEpoch", "newEpoch"}}, {Atoms: []string{"oldRev", "newRev"}}},
 		Oracle: func(st *State, name string, args []AV, res *types.Tuple) ([]AV, bool) {
-			if name == fname(get) && len(args) == 2 {
-				switch avString(args[1]) {
+			if name == fname(get) && len(args) >= 1 {
+				switch avString(args[len(args)-1]) {
 				case "&" + recv + ".configSnapshot":
 					return []AV{avInt{atom: "oldEpoch"}, avInt{atom: "oldRev"}}, true
 				case "&" + np:
 					return []AV{avInt{atom: "newEpoch"}, avInt{atom: "newRev"}}, true
 				}
-				return []AV{avOpaque{"revision of an unexpected snapshot " + avString(args[1])}, avOpaque{"rev"}}, true
+				return []AV{avOpaque{"revision of an unexpected snapshot " + avString(args[len(args)-1])}, avOpaque{"rev"}}, true
 			}
 			return nil, false
 		}}
@@ -622,4 +678,50 @@ func c07r7(c *Ctx, id string) {
 		}
 		return ""
 	}, "install + reconfigure ⇔ read ok ∧ (no snapshot yet ∨ newer)")
+}
+
+// replicaStateType: the per-copy report record of the rollback mitigation, found by shape.
+func replicaStateType(w *World) *types.Named {
+	p := w.Pkgs["couchbase"]
+	if p == nil {
+		return nil
+	}
+	var found []*types.Named
+	sc := p.Types.Scope()
+	for _, n := range sc.Names() {
+		tn, ok := sc.Lookup(n).(*types.TypeName)
+		if !ok {
+			continue
+		}
+		nt, ok := tn.Type().(*types.Named)
+		if !ok {
+			continue
+		}
+		st, ok := nt.Underlying().(*types.Struct)
+		if !ok {
+			continue
+		}
+		hasU, hasS := false, false
+		for i := 0; i < st.NumFields(); i++ {
+			switch shortType(st.Field(i).Type()) {
+			case "gocbcore.VbUUID":
+				hasU = true
+			case "gocbcore.SeqNo":
+				hasS = true
+			}
+		}
+		isObs := false
+		for _, o := range w.observerImpls() {
+			if o == nt {
+				isObs = true
+			}
+		}
+		if hasU && hasS && !isObs {
+			found = append(found, nt)
+		}
+	}
+	if len(found) == 1 {
+		return found[0]
+	}
+	return nil
 }
